@@ -29,7 +29,7 @@ MsgVerifyClauses(r) ==
   \* a signature from which no key can be recovered is outside the property's quantifier
   \* (the library raises on such garbage): unconstrained
   IF ~RecoverPub(r.in.sig, r.in.msg).ok THEN <<>>
-  ELSE << <<"verifymessage-iff-reference", r.out.k = "ret" /\ r.out.res = VerifyMessage(r.in.h160, r.in.msg, r.in.sig)>> >>
+  ELSE << <<"verifymessage-iff-reference", r.out.k = "ret" /\ r.out.res = VerifyMessage(r.chain, r.in.addr, r.in.msg, r.in.sig)>> >>
 Clauses(r) ==
   CASE r.op = "key.pub" -> PubClauses(r)
     [] r.op = "key.wif" -> WifClauses(r)
